@@ -29,6 +29,9 @@ type c08p struct {
 	backlog int
 	// flusher: one more task calls Flush concurrently with the producers and Stop
 	flusher bool
+	// rows: MaxBufferedRows (default 1): with 2, two batches share one flush request, so a
+	// request carries several waiters
+	rows int
 }
 
 func (p c08p) name() string {
@@ -38,6 +41,9 @@ func (p c08p) name() string {
 	}
 	if p.flusher {
 		n += "-flusher"
+	}
+	if p.rows > 1 {
+		n += fmt.Sprintf("-rows%d", p.rows)
 	}
 	return n
 }
@@ -88,6 +94,9 @@ func c08Root(p c08p) func() {
 		cfg := baseConfig()
 		cfg.IngestBufferSize = p.ib
 		cfg.MaxBufferedRows = 1
+		if p.rows > 1 {
+			cfg.MaxBufferedRows = p.rows
+		}
 		eng, err := bs.NewBloomSearchEngine(cfg, meta, data)
 		if err != nil {
 			vapi.Fail("config: %v", err)
@@ -291,16 +300,18 @@ func init() {
 		var ps []c08p
 		if tier == "quick" {
 			ps = []c08p{
-				{"bg", "", false, 2, 1, false, 0, false},
-				{"deadline", "CreateFile", false, 2, 1, false, 0, false},
-				{"deadline", "Update", true, 2, 1, false, 0, false},
-				{"expired", "CreateFile", false, 2, 2, false, 0, false},
-				{"deadline", "", false, 2, 1, true, 0, false},
+				{"bg", "", false, 2, 1, false, 0, false, 0},
+				{"deadline", "CreateFile", false, 2, 1, false, 0, false, 0},
+				{"deadline", "Update", true, 2, 1, false, 0, false, 0},
+				{"expired", "CreateFile", false, 2, 2, false, 0, false, 0},
+				{"deadline", "", false, 2, 1, true, 0, false, 0},
 				// a saturated pipeline: callers blocked inside IngestRows when Stop begins
-				{"deadline", "CreateFile", false, 2, 1, false, 4, false},
+				{"deadline", "CreateFile", false, 2, 1, false, 4, false, 0},
+				// two waiters per flush request, the first one abandoned
+				{ctx: "deadline", producers: 2, ib: 2, abandoned: true, rows: 2},
 				// Flush racing Stop
-				{"bg", "", false, 1, 1, false, 0, true},
-				{"deadline", "CreateFile", false, 1, 2, false, 0, true},
+				{"bg", "", false, 1, 1, false, 0, true, 0},
+				{"deadline", "CreateFile", false, 1, 2, false, 0, true, 0},
 			}
 		} else {
 			for _, c := range []string{"bg", "deadline", "expired", "custom"} {
@@ -314,20 +325,24 @@ func init() {
 						}
 						for _, np := range []int{2, 3} {
 							for _, ib := range []int{1, 2} {
-								ps = append(ps, c08p{c, w, honor, np, ib, false, 0, false})
+								ps = append(ps, c08p{c, w, honor, np, ib, false, 0, false, 0})
 							}
 						}
 					}
 				}
+				if c != "bg" {
+					ps = append(ps, c08p{ctx: c, producers: 2, ib: 2, abandoned: true, rows: 2}, c08p{ctx: c, wedge: "Update", producers: 2, ib: 1, abandoned: true, rows: 2},
+						c08p{ctx: c, producers: 3, ib: 2, abandoned: true, rows: 3})
+				}
 				if c == "bg" {
-					ps = append(ps, c08p{c, "", false, 1, 1, false, 0, true}, c08p{c, "", false, 2, 2, false, 0, true})
+					ps = append(ps, c08p{c, "", false, 1, 1, false, 0, true, 0}, c08p{c, "", false, 2, 2, false, 0, true, 0})
 				}
 				if c != "bg" {
-					ps = append(ps, c08p{c, "", false, 2, 1, true, 0, false}, c08p{c, "CreateFile", false, 2, 1, true, 0, false},
-						c08p{c, "", false, 1, 1, false, 0, true}, c08p{c, "CreateFile", false, 2, 1, false, 0, true}, c08p{c, "Update", true, 1, 2, false, 0, true})
+					ps = append(ps, c08p{c, "", false, 2, 1, true, 0, false, 0}, c08p{c, "CreateFile", false, 2, 1, true, 0, false, 0},
+						c08p{c, "", false, 1, 1, false, 0, true, 0}, c08p{c, "CreateFile", false, 2, 1, false, 0, true, 0}, c08p{c, "Update", true, 1, 2, false, 0, true, 0})
 					for _, bl := range []int{4, 5} {
-						ps = append(ps, c08p{c, "CreateFile", false, 2, 1, false, bl, false}, c08p{c, "Update", true, 2, 1, false, bl, false},
-							c08p{c, "", false, 2, 1, true, bl, false}, c08p{c, "CreateFile", false, 3, 1, false, bl, false})
+						ps = append(ps, c08p{c, "CreateFile", false, 2, 1, false, bl, false, 0}, c08p{c, "Update", true, 2, 1, false, bl, false, 0},
+							c08p{c, "", false, 2, 1, true, bl, false, 0}, c08p{c, "CreateFile", false, 3, 1, false, bl, false, 0})
 					}
 				}
 			}
